@@ -55,14 +55,14 @@ def rnd_hist(rng, maxlen=8):
 
 
 # the closed witnesses of Props/C05 (replayed on the real code on every run): (api, legacy, check_now, S, H, b0, hist)
-# the first three are the regression cases of the fixed C05-F1/F2 and must be clean under both subsystems
+# all of them are regression cases of FIXED findings (C05-F1..F5) and must be clean under both subsystems
 WITNESSES = [
     ("dec", False, None, 5, None, False, [[1, "T"], [3, "A"]]),             # C05_new_regress_attr_update_cancels_hold (#13)
     ("dec", False, None, 5, None, False, [[1, "T"], [3, "T"]]),             # C05_new_regress_latest_args (#14)
     ("dec", False, None, None, 2, True, [[1, "A"], [5, "T"]]),              # C05_new_regress_skip_starts_false_period
-    ("dec", False, True, None, 2, True, []),                                # C05_new_cex_checknow_holdfalse_no_start
-    ("wu", False, None, 5, 10, True, [[1, "F"], [2, "T"]]),                 # C05_new_waituntil_cex_holdfalse_disabled
-    ("wu", True, None, None, 0, False, [[2, "T"], [4, "F"], [6, "T"]]),     # C05_waituntil_cex
+    ("dec", False, True, None, 2, True, []),                                # C05_new_regress_checknow_holdfalse_no_start
+    ("wu", False, None, 5, 10, True, [[1, "F"], [2, "T"]]),                 # C05_new_waituntil_regress_holdfalse_disabled
+    ("wu", True, None, None, 0, False, [[2, "T"], [4, "F"], [6, "T"]]),     # C05_waituntil_regress_init_false
 ]
 
 
@@ -222,17 +222,11 @@ def run_impl(cases):
 
 
 # ------------------------------------------------------------------ the documented timeline, in Python
-FLAGS = ["no_start_with_hold_false", "wu_init_false_unrecorded", "wu_hold_false_disabled"]   # open findings only
-
-
-def timeline(p, flags=()):
-    """the runs the documentation promises: [[time_ms, event index], …] (for wait_until only the first).
-    `flags` switch on the known deviations of the code (used ONLY to classify a failing case, never for the verdict)."""
+def timeline(p):
+    """the runs the documentation promises: [[time_ms, event index], …] (for wait_until only the first)"""
     api = p["api"]
     cn = eff_check(api, p["check_now"])
     S, H, b0 = ms(p["hold"]), ms(p["hold_false"]), p["b0"]
-    if "wu_hold_false_disabled" in flags and cn and b0:
-        H = None
     runs = []
     pending = None          # [start, args]
     false_since = None
@@ -247,9 +241,7 @@ def timeline(p, flags=()):
 
     if checked and H is not None and not b0:
         false_since = 0
-        if "wu_init_false_unrecorded" in flags and cn:
-            false_since = None
-    if cn and b0 and not ("no_start_with_hold_false" in flags and H is not None):
+    if cn and b0:
         candidate(0, 0)
     for i, (t, k) in enumerate(p["hist"]):
         t, a = t * 1000, i + 1
@@ -273,24 +265,6 @@ def timeline(p, flags=()):
     if pending is not None:
         runs.append([pending[0] + S, pending[1]])
     return runs[:1] if api == "wu" else runs
-
-
-ALLOWED = {
-    ("dec", True): [],
-    ("wu", True): ["wu_init_false_unrecorded"],
-    ("dec", False): ["no_start_with_hold_false"],
-    ("wu", False): ["wu_hold_false_disabled"],
-}
-
-
-def explain(p, obs):
-    """smallest set of known deviations of this (api, subsystem) under which the timeline equals the observation"""
-    allowed = ALLOWED[(p["api"], p["legacy"])]
-    for n in range(1, len(allowed) + 1):
-        for fl in itertools.combinations(allowed, n):
-            if timeline(p, fl) == obs:
-                return list(fl)
-    return None
 
 
 # ------------------------------------------------------------------ columns, verdict
@@ -341,11 +315,8 @@ def verdict(c):
         return f"unexplained | {p['api']}:{sub}: generated history violates NoTies"
     if obs["runs"] == orc:
         return None
-    fl = explain(p, obs["runs"])
-    what = f"observed {obs['runs']} documented {orc}"
-    if fl is None:
-        return f"unexplained | {p['api']}:{sub}: {what}"
-    return f"{sub}:{fl[0]} | {p['api']}:{sub}: {what} (explained by {'+'.join(fl)})"
+    # no open finding is left for C05: every deviation from the documented timeline is a violation
+    return f"unexplained | {p['api']}:{sub}: observed {obs['runs']} documented {orc}"
 
 
 def classify(c, reason):
